@@ -165,7 +165,30 @@ class _Conv:
             return self.select(n)
         if n.type == "function_expression":
             return self.lam(n)
+        if n.type == "unary_expression":
+            return self.unary(n)
         raise OutsideFragment(n.type)
+
+    def unary(self, n):
+        """operator c g operand — `unary_expression`"""
+        shape = OutsideFragment("unary shape")
+        ch = n.children
+        if len(ch) < 2 or ch[0].type not in ("!", "-") or ch[0].child_count != 0:
+            raise shape
+        op, operand = ch[0], ch[-1]
+        if operand.type == "comment":
+            raise shape
+        run, pos, prev = [], op.end_byte, op
+        for c in ch[1:-1]:
+            if c.type != "comment":
+                raise shape
+            g = self.gap(pos, c.start_byte)
+            self.rows(prev, c, g)
+            run.append((g, self.t(c.start_byte, c.end_byte)))
+            pos, prev = c.end_byte, c
+        g = self.gap(pos, operand.start_byte)
+        self.rows(prev, operand, g)
+        return ("U", self.t(op.start_byte, op.end_byte), run, g, self.expr(operand))
 
     def lam(self, n):
         """name c1 g1 `:` c2 g2 body — a function whose argument is one identifier"""
@@ -409,6 +432,8 @@ def flatten(x) -> str:
     if k == "F1":
         gc = lambda r: "".join(g + c for g, c in r)  # noqa: E731
         return x[1] + gc(x[2]) + x[3] + ":" + gc(x[4]) + x[5] + flatten(x[6])
+    if k == "U":
+        return x[1] + "".join(g + c for g, c in x[2]) + x[3] + flatten(x[4])
     if k == "c":
         return x[1] + x[2]
     if k == "e":
@@ -445,6 +470,8 @@ def sexp(x):
     if k == "F1":
         gc = lambda r: [[hx(g), hx(c)] for g, c in r]  # noqa: E731
         return ["F1", hx(x[1]), gc(x[2]), hx(x[3]), gc(x[4]), hx(x[5]), sexp(x[6])]
+    if k == "U":
+        return ["U", hx(x[1]), [[hx(g), hx(c)] for g, c in x[2]], hx(x[3]), sexp(x[4])]
     if k == "c":
         return ["c", hx(x[1]), hx(x[2])]
     if k == "e":
@@ -478,6 +505,8 @@ def code_tokens(x) -> list[str]:
         return code_tokens(x[1]) + [t for a in x[5] for t in (".", a)] + ["or"] + code_tokens(x[9])
     if k == "F1":
         return [x[1], ":"] + code_tokens(x[6])
+    if k == "U":
+        return [x[1]] + code_tokens(x[4])
     if k == "c":
         return []
     if k == "e":
